@@ -41,6 +41,10 @@ def run(ctx: Ctx):
     check_resynth(ctx, fi)
     check_language(ctx)
     memo.check_memo_keys(ctx, ("decompiler.", "compiler."))
+    # the sections the optimizer splices over come from the decompiler: their index ranges and expressions (C11)
+    from . import c11
+
+    ctx.section(c11.run, ctx)
 
 
 def check_splice(ctx: Ctx, fi: FuncInfo):
